@@ -131,7 +131,12 @@ func (g s1Gen) query() string {
 }
 
 // s2Query: stage S2b — one directed hop with WHERE conjuncts over single variables; the RETURN reads any non-empty selection of a, r, b.
-func (g s1Gen) s2Query() string {
+func (g s1Gen) s2Query() string { return g.s2QueryX(false) }
+
+// crossHopQuery: stage S2x — an S2b query whose WHERE has at least one conjunct comparing a property of a with a property of b (= / <>).
+func (g s1Gen) crossHopQuery() string { return g.s2QueryX(true) }
+
+func (g s1Gen) s2QueryX(cross bool) string {
 	kinds := func(opts []string) string { return Pick(g.rng, opts) }
 	a := "(a" + kinds([]string{"", "", ":NodeKind1", ":NodeKind2:NodeKind1"}) + ")"
 	r := "[r" + kinds([]string{"", "", ":EdgeKind1", ":EdgeKind1|EdgeKind2"}) + "]"
@@ -161,11 +166,25 @@ func (g s1Gen) s2Query() string {
 		}
 	}
 	where := ""
-	if g.rng.Chance(3, 4) {
+	if cross || g.rng.Chance(3, 4) {
 		// WHERE: 1..4 conjuncts, each an S1 predicate over ONE of a, r, b (a conjunct that is itself a conjunction is parenthesised)
 		n := 1 + g.rng.Intn(4)
 		cs := make([]string, n)
+		must := -1
+		if cross {
+			must = g.rng.Intn(n)
+		}
 		for i := range cs {
+			if i == must || (cross && g.rng.Chance(1, 3)) {
+				// a two-variable conjunct: x.k (= | <>) y.k' with {x, y} = {a, b}
+				x, y := "a", "b"
+				if g.rng.Chance(1, 2) {
+					x, y = y, x
+				}
+				keys := []string{"name", "a", "a", "zz", "f"}
+				cs[i] = x + "." + Pick(g.rng, keys) + Pick(g.rng, []string{" = ", " = ", " <> "}) + y + "." + Pick(g.rng, keys)
+				continue
+			}
 			v := Pick(g.rng, []string{"a", "r", "b", "a", "b"})
 			cs[i] = s1Gen{rng: g.rng, v: v, edge: v == "r"}.pred(2, 2)
 		}
@@ -472,5 +491,9 @@ func (c01TieSuite) Gen(rng *Rng, tier string, w *bufio.Writer, stats *Stats) {
 	for i := 0; i < n/3; i++ {
 		fmt.Fprintf(w, "# case %d s1d\nq %s %d 4 0 0\n", 4*n+i+1, jsonQuote(g.distinctQuery()), rng.Intn(1<<20))
 		stats.Inc("s1d_generated")
+	}
+	for i := 0; i < n/3; i++ {
+		fmt.Fprintf(w, "# case %d s2x\nq %s %d 4 0 0\n", 4*n+n/3+i+1, jsonQuote(g.crossHopQuery()), rng.Intn(1<<20))
+		stats.Inc("s2x_generated")
 	}
 }
